@@ -39,7 +39,7 @@ def index_ok(leaf, conds, ts, buf, ex, facts):
     if isinstance(leaf, tuple) and leaf[0] == "ivar":
         b = ex.ivar_bounds.get(leaf)
         if b:
-            if b["array"] is None and b["start"] == cu(0) and isinstance(b["end"], tuple) and b["end"][0] == "pre" and b["end"][1].split(".")[-1] in ts.len_fields:
+            if b["array"] is None and b["start"] == cu(0) and isinstance(b["end"], tuple) and b["end"][0] == "pre" and (b["end"][1].count(".") == 1 and b["end"][1].split(".")[-1] in ts.len_fields):
                 return "R-range"
             if b["array"] == ("self", buf):
                 return "R-iter"
@@ -50,7 +50,7 @@ def index_ok(leaf, conds, ts, buf, ex, facts):
     if isinstance(leaf, tuple) and leaf[0] == "pick" and leaf[1] == cu(0):
         if all(ex.ivar_bounds.get(e, {}).get("array") == ("self", buf) for e in leaf[2]):
             return "R-enum"
-    if isinstance(leaf, tuple) and leaf[0] == "%" and isinstance(leaf[2], tuple) and leaf[2][0] == "pre" and leaf[2][1].split(".")[-1] in ts.len_fields:
+    if isinstance(leaf, tuple) and leaf[0] == "%" and isinstance(leaf[2], tuple) and leaf[2][0] == "pre" and (leaf[2][1].count(".") == 1 and leaf[2][1].split(".")[-1] in ts.len_fields):
         return "R-mod"
     if isinstance(leaf, tuple) and leaf[0] == "+" and leaf[2] == cu(1) and leaf[1][0] == "pre":
         f = leaf[1][1].split(".", 1)[1]
@@ -77,8 +77,8 @@ def le_len(leaf, conds, ts, ex, facts):
                 return "R-counter-inc"
             if f in ts.cursors:
                 return "R-cursor"
-    if isinstance(leaf, tuple) and leaf[0] == "len":
-        return "R-len"
+    if isinstance(leaf, tuple) and leaf[0] == "len" and buffer_of_len(leaf) in ts.buffers:
+        return "R-len"   # the length of a window buffer of this struct (all of them have length period)
     return None
 
 
@@ -106,7 +106,7 @@ def discharge(site, ts, ex):
                 return "R-const-arith", ""
             return None, "constant arithmetic %s %s %s overflows" % (x, site["op"], y)
         if kind == "Overflow" and site.get("op") in ("Add", "Sub") and isinstance(ops.get("a"), tuple) and ops["a"][0] == "pre" \
-                and ops["a"][1].startswith("self.") and ops["a"][1].split(".")[-1] in ts.len_fields and ts.buffers and ops.get("b") == cu(1):
+                and ops["a"][1].startswith("self.") and (ops["a"][1].count(".") == 1 and ops["a"][1].split(".")[-1] in ts.len_fields) and ts.buffers and ops.get("b") == cu(1):
             # a Box<[f64]> of length period exists: 1 <= period <= isize::MAX / 8
             return ("R-period-inc (period + 1 <= isize::MAX)" if site["op"] == "Add" else "R-period-dec (period >= 1)"), ""
         if kind == "Overflow" and site.get("op") == "Add" and isinstance(ops.get("a"), tuple) and ops["a"][0] == "ivar" and ops.get("b") == cu(1):
@@ -139,7 +139,7 @@ def discharge(site, ts, ex):
             d = None
             if isinstance(c, tuple) and c[0] == "==" :
                 d = c[1] if c[2] == cu(0) else (c[2] if c[1] == cu(0) else None)
-            if isinstance(d, tuple) and d[0] == "pre" and d[1].startswith("self.") and d[1].split(".")[-1] in ts.len_fields:
+            if isinstance(d, tuple) and d[0] == "pre" and d[1].startswith("self.") and (d[1].count(".") == 1 and d[1].split(".")[-1] in ts.len_fields):
                 return "R-div-period", ""
             if buffer_of_len(d) in ts.buffers and ts.len_fields:
                 return "R-div-len (len(buffer) = period >= 1)", ""
@@ -163,7 +163,7 @@ def discharge(site, ts, ex):
             # split_at(mid) of the sub-slice [start, upper): needs mid <= upper, not only mid <= len
             upper = simp(upper, facts)
             ok_up = upper == end or (isinstance(upper, tuple) and upper[0] == "len" and buffer_of_len(upper) == buf) \
-                or (upper[0] == "pre" and upper[1].split(".")[-1] in ts.len_fields)
+                or (upper[0] == "pre" and (upper[1].count(".") == 1 and upper[1].split(".")[-1] in ts.len_fields))
             if not ok_up and ts.lockstep:
                 c, n = ts.lockstep
                 for lab, (fn, r) in ts.methods.items():
